@@ -155,9 +155,35 @@ def _base_types(f, p):
 
 
 def _touches_field(f, p, field):
+    """does the place go through field `field` of a KeepRaw — directly, or through a local reference to it
+    (`let KeepRaw { raw, .. } = self; *raw = ..`)"""
     for e, ty in _base_types(f, p):
         if e[0] == "field" and e[2] == field and re.match(r"^(&(mut )?)?pallas_codec::utils::KeepRaw<", ty):
             return True
+    # through a local reference: `_3 = &mut (*_1).raw; (*_3) = ..`
+    q = p
+    for _ in range(5):
+        if isinstance(q, int) or not pl_proj(q) or pl_proj(q)[0][0] != "deref":
+            break
+        L = pl_local(q)
+        srcs = [st_[2]["p"] for _b, _i, st_ in f.statements() if st_[0] == "a" and st_[1] == L and st_[2]["k"] in ("ref", "rawptr")]
+        full = [st_ for _b, _i, st_ in f.statements() if st_[0] == "a" and st_[1] == L]
+        if len(srcs) != 1 or len(full) != 1:
+            break
+        src = srcs[0]
+        q = [pl_local(src), list(pl_proj(src)) + list(pl_proj(q)[1:])] if not isinstance(src, int) else [src, list(pl_proj(q)[1:])]
+        for e, ty in _base_types(f, q):
+            if e[0] == "field" and e[2] == field and re.match(r"^(&(mut )?)?pallas_codec::utils::KeepRaw<", ty):
+                return True
+    s = f.sym_place(p)
+    while s and s[0] in ("deref", "ref", "field", "downcast", "index"):
+        if s[0] == "field" and s[2] == field:
+            root = s[1]
+            while root and root[0] in ("deref", "ref", "field", "downcast", "index"):
+                root = root[1]
+            if root and root[0] == "param" and "pallas_codec::utils::KeepRaw<" in (f.local_ty(root[1]) or ""):
+                return True
+        s = s[1]
     return False
 
 
@@ -178,6 +204,10 @@ def coherence_clause(res, P):
                 v = f.sym_rvalue(s[2], 40, (bi, si))
                 if _is_input_free(v):
                     resetters.add(f.path)
+        for b in f.blocks:
+            t = b["term"]
+            if t["k"] == "call" and not isinstance(t["dest"], int) and _touches_field(f, t["dest"], "raw") and all(_is_input_free(f.sym_operand(a)) for a in t["args"]):
+                resetters.add(f.path)
     n_mut = 0
     for f in fns:
         events = []
@@ -196,6 +226,8 @@ def coherence_clause(res, P):
             t = b["term"]
             if t["k"] == "call" and (t.get("f") in resetters):
                 resets.add(bi)
+            if t["k"] == "call" and not isinstance(t["dest"], int) and _touches_field(f, t["dest"], "raw") and all(_is_input_free(f.sym_operand(a)) for a in t["args"]):
+                resets.add(bi)
             if t["k"] == "call" and not isinstance(t["dest"], int) and _touches_field(f, t["dest"], "inner"):
                 events.append((bi, "write"))
         if not events:
@@ -206,7 +238,7 @@ def coherence_clause(res, P):
         for bm, how in events:
             if bm in resets:
                 continue
-            if f.can_reach(0, bm, avoid=resets) and any(f.can_reach(bm, r, avoid=resets) or bm == r for r in f.return_blocks()):
+            if f.can_reach(0, bm, avoid=resets) and any(f.can_reach(bm, r, avoid=resets) or bm == r for r in f.return_blocks() if r not in resets):
                 bad = how
                 break
         if bad:
@@ -229,7 +261,8 @@ def coherence_clause(res, P):
                 key = "b:construction:%s" % f.path
                 if _is_input_free(raw):
                     res.ok(key, "R-CTORS", "raw is empty at construction")
-                elif f.b.get("impl_trait") == "minicbor::decode::Decode" and f.name == "decode":
+                elif (f.b.get("impl_trait") == "minicbor::decode::Decode" and f.name == "decode") or \
+                        ("as minicbor::decode::Decode<" in f.path and f.path.split("::{closure")[0].endswith("::decode")):
                     res.ok(key, "R-CTORS", "the decode capture (clause a)")
                 else:
                     def root_param(x):
@@ -263,7 +296,8 @@ def anyuint_clause(res, m):
         parts = []
         for t in a.tokens:
             parts.extend(_byte_parts(t.val))
-        heads[a.variant] = parts
+        # a bare u8 value in the buffer is its own 1-byte big-endian form (`[x]` == `x.to_be_bytes()`)
+        heads[a.variant] = [("be", p_, 1) if p_[0] == "sym" else p_ for p_ in parts]
     # head forms, decided on the *head byte* (not on the value): (data::Type the decoder sees, first byte of the item or None =
     # the value itself (immediate form), sample value or None, argument width).  minicbor's datatype() is Type::U8 both for the
     # immediate form and for head 0x18, so the non-minimal items `18 00` .. `18 17` are accepted too and must be re-encoded
